@@ -266,8 +266,9 @@ Proof.
   replace (Z.of_nat (S (length elems)) =? 0) with false in Hp by (symmetry; apply Z.eqb_neq; lia).
   inversion Hp; subst text w. clear Hp.
   destruct elems as [|a0 rest]; [congruence|].
-  destruct (print_array_iseq dec2f dec2d o print_arr zf zd Hz _ ty (a0 :: rest) _ true t tmp cols1 bb Hg ltac:(lia) eq_refl
-              ltac:(discriminate) Epa) as (its & T & -> & -> & Hseq & Horig & Hne').
+  rewrite <- (app_nil_r (a0 :: rest)) in Epa at 2.
+  destruct (print_array_iseq dec2f dec2d o print_arr 4 zf zd Hz _ ty (a0 :: rest) [] _ true t tmp cols1 bb Hg (Forall_nil _)
+              ltac:(rewrite app_nil_r; lia) eq_refl ltac:(discriminate) Epa) as (its & T & -> & -> & Hseq & Horig & Hne' & _).
   destruct (iseq_from_iseq dec2f dec2d _ _ _ _ Hseq Hne') as (sepz & T' & -> & HL & ->). cbn [app].
   assert (Hty : atys_ok 0 its).
   { apply (atys_from (a0 :: rest) Hh); [|left; reflexivity].
